@@ -256,7 +256,7 @@ Hypothesis HR : Rel hf K bc m.
 Hypothesis HX : XInv hf K bc.
 Hypothesis HC : CtOK bc.
 Hypothesis Hcl : closed bc.
-Hypothesis Htf : any_data bc = true -> b_treefiles bc = [(b_maxdumped bc, b_tree bc)].
+Hypothesis Htf : rm_trees rm = true \/ (any_data bc = true -> b_treefiles bc = [(b_maxdumped bc, b_tree bc)]).
 
 Let d := dir_of bc rm.
 
@@ -304,13 +304,14 @@ Qed.
 Lemma o_picked_tree t : o_picked d = Some t -> snd t = b_tree bc /\ (Z.of_nat (fst (fst t)) <= o_md d)%Z.
 Proof.
   intros H. apply pick_tree_spec in H as [Hin Hle]. split; [|exact Hle].
-  cbn [dir_of dr_trees d] in Hin. destruct (rm_trees rm); [destruct Hin|].
+  cbn [dir_of dr_trees d] in Hin. destruct (rm_trees rm) eqn:Erm; [destruct Hin|].
+  destruct Htf as [Hx|Htf']; [discriminate|].
   destruct o_md2 as [Hm|[H1 H2]]; [lia|].
   assert (Had : any_data bc = true).
   { unfold any_data. apply existsb_exists. exists (chunk_at bc (Z.to_nat (o_md d))). split; [|exact H2].
     unfold chunk_at. apply nth_In. destruct (Nat.lt_ge_cases (Z.to_nat (o_md d)) (length (b_chunks bc))) as [Hlt|Hge]; [exact Hlt|].
     unfold chunk_at in H2. rewrite nth_overflow in H2 by exact Hge. discriminate. }
-  rewrite (Htf Had) in Hin. destruct Hin as [<-|[]]. reflexivity.
+  rewrite (Htf' Had) in Hin. destruct Hin as [<-|[]]. reflexivity.
 Qed.
 
 Lemma o_tid_le : (fst (o_tid d) <= o_head d)%nat.
@@ -545,12 +546,12 @@ Qed.
 Lemma log_find_recs b b' : (forall c, recs_at b' c = recs_at b c) -> forall q, log_find b' q = log_find b q.
 Proof. intros H q. unfold log_find. fold (recs_at b' (p_chunk q)) (recs_at b (p_chunk q)). now rewrite H. Qed.
 
-Theorem restart_x b m rm : RInv2 b m ->
-  exists b' m', restart cf hf b rm = Opened b' /\ RInv2 b' m' /\ view m m'.
+Lemma open_x bc m rm :
+  Rel hf K bc m -> XInv hf K bc -> CtOK bc -> closed bc ->
+  (rm_trees rm = true \/ (any_data bc = true -> b_treefiles bc = [(b_maxdumped bc, b_tree bc)])) ->
+  exists b' m', bkt_open cf hf (dir_of bc rm) = Opened b' /\ RInv2 b' m' /\ view m m'.
 Proof.
-  intros (HR & HX & HC). unfold restart.
-  destruct (close_x b m HR HX HC) as (HRc & HXc & HCc & Hcl & Htf). cbv zeta in HRc, HXc, HCc, Hcl, Htf.
-  set (bc := bkt_close b) in *. set (d := dir_of bc rm).
+  intros HRc HXc HCc Hcl Htf. set (d := dir_of bc rm).
   rewrite bkt_open_eq.
   assert (Hnr : existsb (fun k => k_exists k && negb (k_fsize k mod 256 =? 0)) (dr_chunks d) = false).
   { destruct (existsb _ _) eqn:E; [|reflexivity]. exfalso. apply existsb_exists in E as (k & Hin & Hk).
@@ -583,4 +584,18 @@ Proof.
       * destruct O6 as [-> | ->]; [now left|right; now rewrite Hlog, Hl].
     + now rewrite O6.
 Qed.
+
+Theorem restart_x b m rm : RInv2 b m ->
+  exists b' m', restart cf hf b rm = Opened b' /\ RInv2 b' m' /\ view m m'.
+Proof.
+  intros (HR & HX & HC). unfold restart.
+  destruct (close_x b m HR HX HC) as (HRc & HXc & HCc & Hcl & Htf). cbv zeta in HRc, HXc, HCc, Hcl, Htf.
+  apply open_x; try assumption. now right.
+Qed.
+
+(* SIGKILL at a moment when every write buffer is empty (e.g. right after a flush): the directory is the bucket's
+   files as they are -- undumped hint buffers and the tree are lost -- and the tree image, if any, is not used *)
+Theorem kill_flushed_x b m rm : RInv2 b m -> closed b -> rm_trees rm = true ->
+  exists b' m', bkt_open cf hf (dir_of b rm) = Opened b' /\ RInv2 b' m' /\ view m m'.
+Proof. intros (HR & HX & HC) Hcl Hrm. apply open_x; try assumption. now left. Qed.
 End R4.
